@@ -18,6 +18,22 @@ CHECKS = {
   text="Engine/solver-decided, bounded: the real watcher (all its goroutines, pub-subs and registry, run by the engine's scheduler on a virtual clock) against a scripted RegisterSubscriber, for all histories of up to h steps with symbolic versions: a registered event below the newest published version (and not below what the watcher registered itself) triggers exactly one Register call with the newest parent transaction and, for a locked sub-channel, its newest or archived transaction; nothing newer known -> no call; registered events reach the client strictly increasing; progressed/concluded events are always relayed; a refused StopWatching leaves the channel watched and can be repeated. The refused-stop defect (F15) found this way was repaired.",
   note="Trusted: go/ssa lowering, interpreter with cooperative scheduler, virtual clock and context model (translator-validated natively), z3; bounded histories and schedules.",
   ref="DESIGN.md §3 C05, Appendix A.5"),
+ "C06": dict(
+  text="Engine/solver-decided, bounded: two real clients (request loops, relays, receivers, machines) on an in-harness bus run the update protocol for programs of n sequential proposals by either party with symbolic amounts and accept/reject decisions, and for two concurrent proposals on one or two channels under delay-bounded schedule exploration: Update returns nil iff the peer's handler accepted, then both parties hold the proposed state with both signatures; a rejection (PeerRejectedError) leaves both states and versions unchanged with both parties in phase Acting and their machine mutexes free; current transactions are fully signed in every explored run; without timeouts both parties end with the same state at version initial + number of successes.",
+  note="Trusted: go/ssa lowering, interpreter with cooperative scheduler, virtual clock and context model (translator-validated natively), z3; ideal signatures; invariants are compared at quiescent points, not between individual machine steps; lossless order-preserving bus.",
+  ref="DESIGN.md §3 C06"),
+ "C07": dict(
+  text="Solver-decided, bounded: a real client with an open channel in an arbitrary state receives update messages crafted by the channel peer (arbitrary balances plus one of 12 structural deviations, 5 kinds of signature material, arbitrary actor index); the user's handler is reached, and the client's signature is sent, only for updates satisfying an independent acceptability predicate (peer's signature over exactly the proposed state, valid successor, actor = signer, locked sub-allocations unchanged incl. index maps); automatically accepted sub-channel funding/settlement updates and virtual channel funding/settlement proposals are countersigned only if they add/remove exactly that channel's sub-allocation and move exactly each participant's balance. Five genuine defects found this way (F16, F17, F16v, F12, F20) were repaired.",
+  note="Trusted: go/ssa lowering, interpreter (translator-validated), z3; ideal signatures; the acceptability predicates written in the harness from the property text; two participants, one asset.",
+  ref="DESIGN.md §3 C07"),
+ "C08": dict(
+  text="Solver-decided, bounded: ledger, sub-channel and virtual channel proposals, well-formed with symbolic leaves and with each of 24 single deviations, are handed to a real client with or without a matching parent channel: the proposal handler is invoked only for proposals an independent validity predicate (DESIGN.md Appendix A.4) accepts, nothing panics and the parent's mutex is released; both sides' parameter derivation from the same (proposal, accept) pair yields identical parameters, participant order, flags and ID; under ideal SHA3/SHA-256 the ID changes exactly when the proposer's or the responder's nonce share changes; accept messages of another type or proposal ID are refused. Six genuine defects found this way (F10, F10b, F10c, F11, F19 and the NewParams address check) were repaired.",
+  note="Trusted: go/ssa lowering, interpreter (translator-validated), z3; ideal hashes and signatures; the initial signature exchange over a live bus under all schedules is outside (only the deterministic derivation and validation are encoded).",
+  ref="DESIGN.md §3 C08, Appendix A.4"),
+ "C12": dict(
+  text="Engine/solver-decided, bounded: each request handler of a real client (sync, update, all proposal kinds, virtual channel funding and settlement) is run from an arbitrary channel state on messages with arbitrary field values within what the decoders can deliver, including ones correctly signed by the counterparty; no goroutine panics, and at quiescence (all virtual-time timeouts fired) every machine mutex is free, at most one response was sent per request and the phase is one an honest request can proceed from. Seven genuine defects found this way (F14, F14b, F11, F19, F20, F12, F12s) were repaired.",
+  note="Trusted: go/ssa lowering, interpreter with scheduler, virtual clock and context model (translator-validated), z3; single adversarial message (two for virtual channels) per run from an arbitrary state instead of long sequences; decoders themselves are C13/C14.",
+  ref="DESIGN.md §3 C12"),
  "C09": dict(
   text="Solver-decided, bounded: from an arbitrary invariant-satisfying machine (all 12 phases x staging/current shapes, symbolic state leaves) each of the 17 operations returns nil exactly when the reference automaton written from the method documentation enables it, then reaches the documented phase with the documented effect, and otherwise leaves phase, staging and current transaction (identity, slots and contents) unchanged; never panics for indices below N.",
   note="Trusted: go/ssa lowering, interpreter (translator-validated), z3; reference automaton of DESIGN.md Appendix A.2; ideal signatures.",
